@@ -19,7 +19,7 @@ theorem mem_start_routed (cap : Nat) (K : List Key) (hK : K.length ≤ cap) (n :
 second gets in; a foreign unlock in between -/
 def trGood : List Act :=
   [.enter 0 0 0 (some 8) true, .attempt 0, .enter 1 1 0 (some 8) true, .attempt 1, .tick 4,
-   .foreignUnlock 0 7, .leave 0 .exc, .attempt 1, .probe 0, .leave 1 .normal, .probe 0]
+   .foreignUnlock 0 7, .leave 0 (.exc .user), .attempt 1, .probe 0, .leave 1 .normal, .probe 0]
 
 /-- an overstayer: task 0 holds key 0 past its ttl, task 1 acquires at the deadline, task 0 is
 cancelled late, task 2 (wait=False) is refused -/
@@ -103,7 +103,7 @@ def trOwnerDown : List Act :=
 /-- `Command.SET_LOCK` disabled on the owning backend: no locking at all -/
 def trSetLockOff : List Act :=
   [.setHealth 1 ⟨false, true⟩, .enter 0 0 100 (some 8) true, .attempt 0, .enter 1 1 100 (some 8) false,
-   .attempt 1, .probe 100, .leave 0 .exc, .leave 1 .normal]
+   .attempt 1, .probe 100, .leave 0 (.exc .user), .leave 1 .normal]
 
 /-- The other seeded defect as a semantics: the probe asks EVERY configured backend (`n` of them) and
 reports "no answer" as soon as one of them is silent. -/
@@ -119,5 +119,30 @@ def stepProbeAll (n : Nat) (s : LockSt TtlMap) : Act → LockSt TtlMap × LOut
 def runProbeAll (n : Nat) (s : LockSt TtlMap) : List Act → LockSt TtlMap
   | [] => s
   | a :: as => runProbeAll n (stepProbeAll n s a).1 as
+
+/-! ### exits -/
+
+/-- The seeded defect as a semantics: leaving with `CacheBackendInteractionError` skips the unlock ("the
+backend went away, the lease runs out by itself") - whichever backend it was that failed. -/
+def stepLostBackend (s : LockSt TtlMap) : Act → LockSt TtlMap × LOut
+  | .leave t (.exc .backendInteraction) =>
+    match s.tasks t with
+    | .inside _ _ _ => (setTask s t .done, .unit)
+    | _ => step ttlOps s (.leave t (.exc .backendInteraction))
+  | a => step ttlOps s a
+
+def runLostBackend (s : LockSt TtlMap) : List Act → LockSt TtlMap
+  | [] => s
+  | a :: as => runLostBackend (stepLostBackend s a).1 as
+
+/-- task 0 holds key 0 (ttl 10 s) and its body ends with `c`; a later caller (wait=False) tries -/
+def trBodyRaises (c : ExcClass) : List Act :=
+  [.enter 0 0 0 (some 80) true, .attempt 0, .tick 1, .leave 0 (.exc c), .enter 1 1 0 (some 80) false, .attempt 1]
+
+def ExcClass.all : List ExcClass :=
+  [.user, .cacheError, .backendNotAvailable, .notConfigured, .unsupportedPickler, .unSecureData, .signIsMissing,
+   .wrongKey, .tagNotRegistered, .locked, .backendInteraction, .rateLimit, .circuitBreakerOpen, .baseException, .other]
+
+theorem ExcClass.mem_all (c : ExcClass) : c ∈ ExcClass.all := by cases c <;> simp [ExcClass.all]
 
 end CashewsVerif.Lock
